@@ -49,6 +49,47 @@ pub fn net_oracles_build(ctx: &mut Ctx, spec: &NetSpec, built: &Result<Network, 
                 ctx.oracle(ok, "announced-shape", "announced layer shapes must follow the standard size formulas",
                     format!("layer {} of {}", i, desc), format!("{} -> {}", shape_tok(&ins), shape_tok(&outs)), format!("{:?} -> {:?}", rl.in_sh(), rl.out_sh()));
             }
+            // … and the parameters the builder itself creates (before anything is installed) have the configured extents:
+            // filters x channels x kernel height x kernel width, outputs x inputs — recorded shape and nested data alike
+            if is(ctx, &["C08"]) {
+                if let Ok(fresh) = net::build_fresh(spec) {
+                    let extents3 = |t: &Tensor| -> Option<(usize, usize, usize)> {
+                        if let Data::Triple(v) = &t.data {
+                            let (c, h, w) = (v.len(), v.first().map_or(0, |m| m.len()), v.first().and_then(|m| m.first()).map_or(0, |r| r.len()));
+                            let uniform = v.iter().all(|m| m.len() == h && m.iter().all(|r| r.len() == w));
+                            if uniform && t.shape == Shape::Triple(c, h, w) { Some((c, h, w)) } else { None }
+                        } else { None }
+                    };
+                    let mut check = |l: &Layer, s: &InnerSpec, where_: String, ctx: &mut Ctx| {
+                        let (ins, _) = neurons::verif::layer_shapes(l);
+                        let cin = match ins { Shape::Triple(c, _, _) => c, _ => 0 };
+                        let (got, want): (String, String) = match (l, s) {
+                            (Layer::Convolution(c), InnerSpec::Conv { filters, k, .. }) =>
+                                (format!("{} x {:?}", c.verif_kernels().len(), c.verif_kernels().iter().map(|t| extents3(t)).collect::<Vec<_>>()), format!("{} x {:?}", filters, vec![Some((cin, k.0, k.1)); *filters])),
+                            (Layer::Deconvolution(c), InnerSpec::Deconv { filters, k, .. }) =>
+                                (format!("{} x {:?}", c.verif_kernels().len(), c.verif_kernels().iter().map(|t| extents3(t)).collect::<Vec<_>>()), format!("{} x {:?}", filters, vec![Some((cin, k.0, k.1)); *filters])),
+                            (Layer::Dense(d), InnerSpec::Dense { out, .. }) => {
+                                let n_in = match ins { Shape::Single(n) => n, _ => 0 };
+                                let w = d.verif_weights();
+                                let ext = if let Data::Double(m) = &w.data { (m.len(), m.first().map_or(0, |r| r.len()), m.iter().all(|r| r.len() == m[0].len())) } else { (0, 0, false) };
+                                (format!("{:?} recorded {}", ext, shape_tok(&w.shape)), format!("{:?} recorded {}", (*out, n_in, true), shape_tok(&Shape::Double(*out, n_in))))
+                            }
+                            _ => (String::new(), String::new()),
+                        };
+                        ctx.oracle(got == want, "created-parameter-shape", "the parameters a layer is created with must have the configured extents (recorded shape and data)",
+                            where_, got, want);
+                    };
+                    for (i, (l, b)) in fresh.layers.iter().zip(spec.builds.iter().filter(|b| matches!(b, Build::Layer(_) | Build::Feedback { .. }))).enumerate() {
+                        match (l, b) {
+                            (Layer::Feedback(f), Build::Feedback { inner, .. }) => {
+                                for (j, il) in f.layers.iter().enumerate() { check(il, &inner[j % inner.len()], format!("block layer {} of layer {} of {}", j, i, desc), ctx); }
+                            }
+                            (l, Build::Layer(sp)) => check(l, sp, format!("layer {} of {}", i, desc), ctx),
+                            _ => (),
+                        }
+                    }
+                }
+            }
             if is(ctx, &["C16"]) {
                 let mut got: Vec<(usize, usize)> = n.connect.iter().map(|(a, b)| (*a, *b)).collect();
                 got.sort();
@@ -301,6 +342,14 @@ pub fn net_oracles_predict(ctx: &mut Ctx, spec: &NetSpec, net: &Network, x: &Ten
     // outside single precision's range the double-precision evaluation of the definition says nothing about the
     // single-precision result (an intermediate overflows there and not here): left to the bit-exact correspondence
     if flat_any(y).iter().any(|v| !v.is_finite()) || out.iter().any(|v| !v.is_finite() || v.abs() > 1e37) {
+        // … except where every operand is moderate (inputs and parameters within ±200, so nothing can leave single
+        // precision's range on the way): there a finite definition with a non-finite result is a fault of the layer
+        let moderate = flat_any(x).iter().all(|v| v.abs() <= 200.0) && net_params(net).iter().all(|p| p.iter().all(|v| v.abs() <= 200.0));
+        if moderate && out.iter().all(|v| v.is_finite() && v.abs() <= 1e30) && flat_any(y).iter().any(|v| !v.is_finite()) {
+            let key = match ctx.prop.as_str() { "C11" => "feedback-forward", "C16" => "skip-forward", "C17" => "loop-forward", _ => "forward-operator" };
+            ctx.oracle(false, key, "with moderate inputs and parameters the layers' operators are finite: the output must be the (finite) composition of the layer operators",
+                desc, clip(&r1(&flat_any(y)), 300), clip(&format!("{:?}", out), 300));
+        }
         return;
     }
     let bad = close_vec(&flat_any(y), &out, 2e-4, 1e-5);
@@ -522,7 +571,41 @@ pub fn net_oracles_predict_batch(ctx: &mut Ctx, spec: &NetSpec, net: &Network, x
     }
 }
 
+/// the same network specification with no dropout rate configured anywhere
+pub fn strip_dropout(spec: &NetSpec) -> NetSpec {
+    let strip = |l: &InnerSpec| -> InnerSpec {
+        let mut l = l.clone();
+        match &mut l {
+            InnerSpec::Dense { dropout, .. } | InnerSpec::Conv { dropout, .. } | InnerSpec::Deconv { dropout, .. } => { *dropout = None; }
+            InnerSpec::Maxpool { .. } => {}
+        }
+        l
+    };
+    let mut spec2 = spec.clone();
+    for b in spec2.builds.iter_mut() {
+        match b {
+            Build::Layer(l) => { *l = strip(l); }
+            Build::Feedback { inner, .. } => { for l in inner.iter_mut() { *l = strip(l); } }
+            _ => {}
+        }
+    }
+    spec2
+}
+
 pub fn net_oracles_validate(ctx: &mut Ctx, spec: &NetSpec, net: &mut Network, xs: &Vec<Tensor>, ts: &Vec<Tensor>, tol: f32, train: bool, res: &Result<(f32, f32), String>) {
+    if is(ctx, &["C02", "C01"]) && !train && res.is_ok() && !xs.is_empty() {
+        // a stand-alone validate leaves the network what it was: predict is still the composition of the layers' operators
+        // (no dropout mask), i.e. the prediction of the same network built without dropout
+        let desc = format!("{} predict after validate on {} samples", clip(&spec.token(), 800), xs.len());
+        if let Ok(Ok(twin)) = net::try_run(|| net::build(&strip_dropout(spec))) {
+            let a = net::try_run(|| net.predict(&xs[0]));
+            let b = net::try_run(|| twin.predict(&xs[0]));
+            if let (Ok(a), Ok(b)) = (&a, &b) {
+                ctx.oracle(bits_eq(a, b), "predict-after-validate-not-composition", "after validate returns, predict must still be the composition of the layers' operators (inference mode)",
+                    desc, rt(a), rt(b));
+            }
+        }
+    }
     if !is(ctx, &["C12", "C09", "C05"]) {
         return;
     }
@@ -699,6 +782,27 @@ pub fn net_oracles_learn(ctx: &mut Ctx, spec: &NetSpec, net: &Network, job: &Lea
             return;
         }
     };
+    // a feedback block with ONE repetition and no internal skips is its layer sequence: training it is training the plain
+    // network with those layers in its place (same groups, same steps, same carried optimizer state)
+    if is(ctx, &["C04", "C10", "C11"]) && job.phases <= 1 && job.script.is_empty()
+        && spec.builds.iter().any(|b| matches!(b, Build::Feedback { .. }))
+        && spec.builds.iter().all(|b| match b { Build::Feedback { loops, inskips, outskips, .. } => *loops == 1 && !*inskips && !*outskips, Build::Layer(_) => true, _ => false }) {
+        let mut plain = spec.clone();
+        plain.builds = spec.builds.iter().flat_map(|b| match b {
+            Build::Feedback { inner, .. } => inner.iter().cloned().map(Build::Layer).collect::<Vec<_>>(),
+            other => vec![other.clone()],
+        }).collect();
+        if let Ok(mut twin) = net::build(&plain) {
+            if let Ok((tl2, _, _)) = net::run_learn(&mut twin, job) {
+                let flat = |n: &Network| -> Vec<f32> { net_params(n).into_iter().flatten().collect() };
+                let close = |a: &[f32], b: &[f32]| a.len() == b.len() && a.iter().zip(b.iter()).all(|(x, y)|
+                    (x.is_nan() && y.is_nan()) || x.to_bits() == y.to_bits() || ((*x as f64) - (*y as f64)).abs() <= 2e-5 * (x.abs().max(y.abs()).max(1e-3) as f64));
+                ctx.oracle(close(&flat(net), &flat(&twin)) && close(tl, &tl2), "one-repetition-block-not-its-layers",
+                    "a block with one repetition and no internal skips must train exactly like the plain network with its layers in the block's place",
+                    desc.clone(), format!("losses {:?}, weights {}", tl, clip(&r1(&flat(net)), 300)), format!("losses {:?}, weights {}", tl2, clip(&r1(&flat(&twin)), 300)));
+            }
+        }
+    }
     if is(ctx, &["C13"]) {
         // lengths
         let with_val = job.val.is_some();
@@ -768,8 +872,16 @@ pub fn net_oracles_learn(ctx: &mut Ctx, spec: &NetSpec, net: &Network, job: &Lea
             // the specification fixes which gradients are summed and when a step is taken, not the association of
             // the floating-point sums: compare within a rounding-sized tolerance (a wrong batch split, a mean for a
             // sum, a stale weight or a wrong step number are orders of magnitude larger)
+            // (the absolute floor follows the scale of the job — data, targets and initial parameters —: with data of size
+            // 1e-4 and zero initial weights the weights ARE sums of tiny terms, and a term left out is not a rounding)
+            let job_scale = {
+                let mut m = 0.0f32;
+                for t in job.xs.iter().chain(job.ts.iter()) { for v in flat_any(t) { if v.is_finite() { m = m.max(v.abs()); } } }
+                if let Ok(init) = net::build(spec) { for p in net_params(&init) { for v in p { if v.is_finite() { m = m.max(v.abs()); } } } }
+                m.min(1.0).max(1e-30)
+            };
             let close_vecs = |a: &[f32], b: &[f32]| a.len() == b.len() && a.iter().zip(b.iter()).all(|(x, y)| {
-                (x.is_nan() && y.is_nan()) || x.to_bits() == y.to_bits() || ((*x as f64) - (*y as f64)).abs() <= 2e-5 * (x.abs().max(y.abs()).max(1e-3) as f64)
+                (x.is_nan() && y.is_nan()) || x.to_bits() == y.to_bits() || ((*x as f64) - (*y as f64)).abs() <= 2e-5 * (x.abs().max(y.abs()).max(1e-3 * job_scale) as f64)
             });
             let same_w = got.len() == spec_params.len() && got.iter().zip(spec_params.iter()).all(|(a, b)| close_vecs(a, b));
             ctx.oracle(same_w, "learn-not-batch-sum-descent",
@@ -797,6 +909,21 @@ pub fn net_oracles_learn(ctx: &mut Ctx, spec: &NetSpec, net: &Network, job: &Lea
 }
 
 /// C04: the specification of `learn` recomputed from the public per-sample pieces on a twin network
+/// element-wise sum written out here: the specification oracle must not inherit a fault of the library's own addition
+fn own_add(a: &mut Tensor, b: &Tensor) {
+    match (&mut a.data, &b.data) {
+        (Data::Single(x), Data::Single(y)) => { for (p, q) in x.iter_mut().zip(y) { *p += *q; } }
+        (Data::Double(x), Data::Double(y)) => { for (r, t) in x.iter_mut().zip(y) { for (p, q) in r.iter_mut().zip(t) { *p += *q; } } }
+        (Data::Triple(x), Data::Triple(y)) => { for (m, n) in x.iter_mut().zip(y) { for (r, t) in m.iter_mut().zip(n) { for (p, q) in r.iter_mut().zip(t) { *p += *q; } } } }
+        (Data::Quadruple(x), Data::Quadruple(y)) => {
+            for (k, l) in x.iter_mut().zip(y) { for (m, n) in k.iter_mut().zip(l) { for (r, t) in m.iter_mut().zip(n) { for (p, q) in r.iter_mut().zip(t) { *p += *q; } } } }
+        }
+        (Data::Nested(x), Data::Nested(y)) => { for (p, q) in x.iter_mut().zip(y) { own_add(p, q); } }
+        (Data::NestedOptional(x), Data::NestedOptional(y)) => { for (p, q) in x.iter_mut().zip(y) { if let (Some(p), Some(q)) = (p.as_mut(), q.as_ref()) { own_add(p, q); } } }
+        _ => a.add_inplace(b),
+    }
+}
+
 pub fn learn_spec(spec: &NetSpec, job: &LearnJob) -> Option<(Vec<f32>, Vec<Vec<f32>>)> {
     let mut twin = net::build(spec).ok()?;
     net::set_all_training(&mut twin, true);
@@ -824,9 +951,9 @@ pub fn learn_spec(spec: &NetSpec, job: &LearnJob) -> Option<(Vec<f32>, Vec<Vec<f
                         sum_w = wg;
                         sum_b = bg;
                     } else {
-                        for (a, b) in sum_w.iter_mut().zip(wg.iter()) { a.add_inplace(b); }
+                        for (a, b) in sum_w.iter_mut().zip(wg.iter()) { own_add(a, b); }
                         for (a, b) in sum_b.iter_mut().zip(bg.iter()) {
-                            if let (Some(a), Some(b)) = (a.as_mut(), b.as_ref()) { a.add_inplace(b); }
+                            if let (Some(a), Some(b)) = (a.as_mut(), b.as_ref()) { own_add(a, b); }
                         }
                     }
                 }
@@ -900,9 +1027,9 @@ pub fn learn_spec_independent(spec: &NetSpec, job: &LearnJob) -> Option<(Vec<Vec
                         sum_w = wg;
                         sum_b = bg;
                     } else {
-                        for (a, b) in sum_w.iter_mut().zip(wg.iter()) { a.add_inplace(b); }
+                        for (a, b) in sum_w.iter_mut().zip(wg.iter()) { own_add(a, b); }
                         for (a, b) in sum_b.iter_mut().zip(bg.iter()) {
-                            if let (Some(a), Some(b)) = (a.as_mut(), b.as_ref()) { a.add_inplace(b); }
+                            if let (Some(a), Some(b)) = (a.as_mut(), b.as_ref()) { own_add(a, b); }
                         }
                     }
                 }
